@@ -21,6 +21,33 @@ def _c10a_replay(tier, seed):
                 reproduced=p.stdout.strip().startswith("(True"))
 
 
+def _c14_lemmas(tier, seed):
+    """Consequences of the clearing contract, over lists as (length, index -> operation): applying it again changes
+    nothing, and the result does not depend on the non-final operations.  Proved by z3 (negated, skolemised)."""
+    import z3
+    I = z3.IntSort()
+    l1, l2, r1, r2, r3 = [z3.Function(n, I, I) for n in ("l1", "l2", "r1", "r2", "r3")]
+    n, k, q = z3.Ints("n k q")
+
+    def clear(src, dst):
+        return z3.And(z3.ForAll([q], z3.Implies(z3.And(0 <= q, q < n - 1), dst(q) == 0)), dst(n - 1) == src(n - 1))
+    out = []
+    for name, hyps, goal in [
+        ("idempotent", [clear(l1, r1), clear(r1, r3)], r3(k) == r1(k)),
+        ("independent-of-non-final-operations", [clear(l1, r1), clear(l2, r2), l1(n - 1) == l2(n - 1)], r1(k) == r2(k)),
+    ]:
+        s = z3.Solver()
+        s.set("timeout", 20000)
+        s.add(n > 0, 0 <= k, k < n, *hyps)
+        s.add(z3.Not(goal))
+        res = str(s.check())
+        out.append((name, res))
+    ok = all(r == "unsat" for _, r in out)
+    return dict(name="lemma-clearing-is-idempotent-and-canonical", bounded=False, status="ok" if ok else "checker-error",
+                error=None if ok else "lemma not proved: %r" % (out,), results=out,
+                note="over the abstract operation lists of spec/btc_lib.py; carries over to serialized transactions only under A-BTCLIB")
+
+
 def _certs_v2_bounded(prop):
     def run(tier, seed):
         import subprocess, os, json
@@ -117,6 +144,15 @@ PROPS = {
                 trusted_base=["spec/certs.py"],
                 explanation="verdict of every target compared with a recursive specification over the finite element map",
                 extras=[_certs_bounded("C06")]),
+    "C14": dict(level="other", assumptions=COMMON + ["A-BTCLIB: python-bitcoinlib (CMutableTransaction.deserialize / serialize, CScript iteration and construction, "
+                                                      "CMutableTxIn.from_txin) as assumed contracts over abstract operation lists; the library is ABSENT from the sandbox, "
+                                                      "so none of this could be cross-checked, and comm/bitcoin.py cannot even be imported here",
+                                                      "scope: the per-input clearing helper, the consequences idempotent / canonical as lemmas over the abstraction, and the "
+                                                      "handler's -102-without-exchange; _unsign_tx's map over the inputs, byte-for-byte preservation of the other fields and "
+                                                      "the serialized form are library behaviour and are NOT verified"],
+                trusted_base=TB + ["spec/btc_lib.py"],
+                explanation="the repository's own glue around python-bitcoinlib: zeros(n-1)+[last], IndexError on an empty script, -102 before any exchange",
+                extras=[_c14_lemmas]),
     "C13": dict(level="proof", assumptions=COMMON + [A_FW], trusted_base=TB + ["spec/firmware.py"],
                 explanation="reply fields are equated with the answers recorded in the ghost log, selectors from the firmware headers"),
 }
